@@ -273,14 +273,16 @@ def assign_inplace(obj, new):
         del obj[len(new):]
         obj.extend(new[len(obj):])
     elif isinstance(obj, dict) and isinstance(new, dict):
-        for k in list(obj):
-            if k not in new:
-                del obj[k]
+        items = []
         for k, v in new.items():
             if k in obj and type(obj[k]) is type(v) and isinstance(v, (list, dict)):
                 assign_inplace(obj[k], v)
+                items.append((k, obj[k]))
             else:
-                obj[k] = v
+                items.append((k, v))
+        # same insertion order as `new` (dds hashes dictionaries in insertion order)
+        obj.clear()
+        obj.update(items)
     else:
         raise TypeError("in-place assignment needs two lists or two dicts")
 
